@@ -198,6 +198,10 @@ func (fc *FnCtx) monitorCall(st *State, c *ast.CallExpr) bool {
 			}
 		}
 		fc.assumptions["monitor "+m.Type+"."+m.Lock+": every access to "+strings.Join(m.Fields, ", ")+" outside the functions under contract also holds the lock"] = true
+		// a ghost named locks_<lockField> counts the critical sections this call enters on that lock
+		if g, ok := st.ghost["locks_"+m.Lock]; ok {
+			st.ghost["locks_"+m.Lock] = VInt{fc.define(add(asInt(g), mkInt(1)), "locks")}
+		}
 		st.lockSnap = nil
 		st.lockSnap = st.clone() // what atlock(e) refers to
 	default:
